@@ -105,8 +105,8 @@ BENIGN = [
      "    if length < 8:\n        return \"\\t\\t\\t\"\n    elif length < 16:\n        return \"\\t\\t\"\n    else:\n        return \"\\t\"",
      "    return \"\\t\""),
     ("ok-tigerxml-attribute-order-and-indent", "trees/treeoutput.py",
-     "        stream.write(u\"%s=%s \" % ('word', terminal.data['word']))\n        stream.write(u\"%s=%s \" % ('lemma', terminal.data['lemma']))\n        stream.write(u\"%s=%s \" % ('pos', terminal.data['label']))",
-     "        stream.write(u\"%s=%s \" % ('pos', terminal.data['label']))\n        stream.write(u\"%s=%s  \" % ('word', terminal.data['word']))\n        stream.write(u\"%s=%s \" % ('lemma', terminal.data['lemma']))"),
+     "        stream.write(u\"%s=%s \" % ('word', quoted['word']))\n        stream.write(u\"%s=%s \" % ('lemma', quoted['lemma']))\n        stream.write(u\"%s=%s \" % ('pos', quoted['label']))",
+     "        stream.write(u\"%s=%s \" % ('pos', quoted['label']))\n        stream.write(u\"%s=%s  \" % ('word', quoted['word']))\n        stream.write(u\"%s=%s \" % ('lemma', quoted['lemma']))"),
     ("ok-rcg-writer-sorted-rules", "trees/grammaroutput.py",
      "    with io.open(\"%s.rcg\" % dest, 'w', encoding=dest_enc) as dest_stream:\n        for func in gram:",
      "    with io.open(\"%s.rcg\" % dest, 'w', encoding=dest_enc) as dest_stream:\n        for func in sorted(gram):"),
